@@ -87,6 +87,8 @@ def _run(ob, slices, expect_cex=(), known_slices=()):
     res = chrun.run_slices(slices, jobs=16)
     for sl, r in zip(slices, res):
         ob.paths += 1
+        ob.ch_conditions += 1
+        ob.ch_definite += r["verdict"] in ("confirmed", "counterexample")
         label = "%s {%s}" % (sl.name, sl.pre)
         ob.sample({"slice": sl.name, "pre": sl.pre, "verdict": r["verdict"], "seconds": r["seconds"], "call": r.get("call")})
         if sl.name in expect_cex:
